@@ -28,6 +28,21 @@ pub fn run(ctx: &Ctx) {
             json!({"kind":"c09-int-top","source": crate::progs::render_program(&b.prog, &crate::progs::Layout::plain()).text, "stdin": String::from_utf8_lossy(&b.stdin)})
         },
     );
+    // terminating programs of every control-flow shape (labels at the very end of the file, a written hlt before a
+    // trailing label, procedures, loops) through the real run loop, plain: the emulator must end normally and print
+    // exactly the reference's marker trace (an index outside the instruction list aborts it)
+    run_cases(
+        ctx,
+        "c09-programs",
+        ctx.tier.pick(300usize, 4_000usize),
+        crate::c08::c8_s,
+        |c| match crate::c08::eval_cli(c) {
+            CaseOutcome::Fail { key, what, replay } => CaseOutcome::Fail { key: key.replace("c08|", "c09|program|"), what, replay },
+            CaseOutcome::Pass { nontrivial, digest, .. } => CaseOutcome::Pass { nontrivial, classes: vec!["c09/program-run".into()], digest },
+            o => o,
+        },
+        |_| json!({"kind":"c09-program","generator":"C08 structured programs"}),
+    );
     for k in ["c09/int/buffer-near-or-across-2^20", "c09/int/string-across-2^20", "c09/int/string-starts-at-or-beyond-2^20", "c09/int/line-longer-than-capacity"] {
         ctx.require_class(k, 10);
     }
